@@ -59,6 +59,11 @@ Ok(r) ==
     [] r.ev = "guard.drop.end" ->                                          \* everything accepted before the drop was written, flushed, writer released
          /\ r.ms < 900 /\ wdropped /\ lastFlush /\ EarlyAccounted
          /\ (~lossy => Unattempted(early \ rejected) = 0)
+    \* bulk scenarios (many producers hammering a full queue, no per-line events): conservation of lines --
+    \* every offered line is written exactly once or counted as dropped exactly once (lossy), written (non-lossy)
+    [] r.ev = "bulk.final" -> /\ r.written + r.dropped = r.offered
+                              /\ (~lossy => r.dropped = 0)
+                              /\ r.partial = 0
     [] r.ev = "final" -> /\ (~lossy => r.dropped = 0)
                          /\ dropBegun /\ EarlyAccounted
                          /\ Cardinality(SetOf(attempts)) + r.dropped <= Cardinality(started \ rejected)
